@@ -228,3 +228,39 @@ func H_C14_three() {
 		concScenario(progs, 0, joined, cOpCount)
 	}
 }
+
+// H_C02_lateGoroutine: a goroutine started by test case 1 on the *T it was given signals a
+// non-fatal failure later - at any point up to the middle of test case 2, whose body waits for
+// it. Whatever the interleaving, the signal was raised on a *T that rapid handed to user code
+// while Check was still running test cases that observe it: Check must not pass.
+func H_C02_lateGoroutine() {
+	concurrent(2)
+	for r := concRounds(); r > 0; r-- {
+		var wg sync.WaitGroup
+		calls := 0
+		barrierReset()
+		prop := func(t *T) {
+			calls++
+			switch calls {
+			case 1:
+				wg.Add(1)
+				go func() {
+					defer wg.Done()
+					barrierWait() // natively: not before test case 2 is under way
+					t.Errorf("reported by a goroutine that outlived its test case")
+				}()
+			case 2:
+				barrierOpen()
+				wg.Wait()
+			}
+		}
+		valid, _, _, _, err := findBug(newVTB("G"), farDeadline(), 2, 12345, prop)
+		vassert(err != nil && !err.isInvalidData(), "C02: a non-fatal failure signalled from another goroutine on a *T handed out by rapid was lost: Check passed")
+		if err != nil && valid == 1 {
+			reach("signal-seen-by-the-next-test-case")
+		}
+		if err != nil && valid == 0 {
+			reach("signal-seen-by-its-own-test-case")
+		}
+	}
+}
